@@ -128,8 +128,8 @@ def run(prop: str, tier: str, seed: int) -> int:
         else:                  # 2-D points, squared Euclidean (ties frequent on a small grid)
             objs = [(rng.randint(0, 3), rng.randint(0, 3)) for _ in range(m)]
             dist, scale = (lambda a, b: (a[0] - b[0]) ** 2 + (a[1] - b[1]) ** 2), 1
-        if len({str(o) for o in objs}) < 2:
-            continue
+        if k % 40 == 11:      # every object at distance 0 from every other: one representative, a 1 x 1 instance
+            objs = [objs[0]] * rng.randint(1, 4)
         power = rng.choice([1, 2, 3, 1.5, 2.5])
         hz = rng.choice([1, 2, 3, 5, 100])
         try:
@@ -138,10 +138,10 @@ def run(prop: str, tier: str, seed: int) -> int:
             rep.family("ordering-instances", 1, 1)
             rep.nontrivial += 1
         except ValueError as ex:
-            # e.g. all objects merged into one: the QAP base class refuses 1x1 with zero bounds
-            if "lower bound" in str(ex) or "must" in str(ex):
-                continue
-            raise
+            # every collection built here is valid (also the ones that merge into a single representative)
+            rep.violations.append(core.Verdict(f"inst-{k}", "constructor-rejects-valid-collection",
+                                               {"objects": [str(o) for o in objs], "power": power, "horizon": hz,
+                                                "error": str(ex)[:200]}))
     for k in range({"quick": 60, "thorough": 400}[tier]):
         pairs = []
         for _ in range(20):
@@ -184,6 +184,16 @@ def run(prop: str, tier: str, seed: int) -> int:
 def replay(prop: str, case: dict) -> dict:
     """Re-validate the recorded case against the specification (the record holds the input and what the real code
     returned for it; re-executing the code on exactly this input is what re-running the check with the same seed does)."""
+    if "kind" not in case:      # a constructor rejection: the recorded objects are handed to the constructor again
+        from moptipyapps.order1d.instance import Instance
+        objs = case["objects"]
+        try:       # (the original distance function is not recorded: equal strings <=> distance 0 suffices here)
+            Instance.from_sequence_and_distance(list(range(len(objs))), lambda a, b: 0 if objs[a] == objs[b] else 1,
+                                                case["power"], case["horizon"], ("pos",), lambda a: f"o{a + 1}")
+            return {"clause": "ok", "case": case, "mode": "re-executed (0/1 distances from the recorded objects)"}
+        except ValueError as ex:
+            return {"clause": "constructor-rejects-valid-collection", "case": {**case, "error": str(ex)[:200]},
+                    "mode": "re-executed (0/1 distances from the recorded objects)"}
     rec = dict(case)
     rec["id"] = "replay"
     vs = core.validate("order1d/Trace_Order", [rec])
